@@ -573,12 +573,16 @@ def elementwise(ctx, mc, rule='R-ELEMENTWISE'):
         I, models = make_interp(ctx.repo, hook)
         models.hooks['np.clip'] = lambda m, a, *args, **kw: a
         return I, models
-    for p in (2, 3):
-        label = 'p=%d, z = [regular, singular, regular]' % p
+    sing2 = (Poly.const(Fr(3, 4)), -I_ * Fr(3, 4))                             # another zero divisor, other value
+    layouts = [('[regular, singular, regular]', elems, [1]),
+               # two different singular elements that do not cover the array: their powers must land in their own slots
+               ('[singular a, regular, singular b, regular]', [elems[1], elems[0], sing2, elems[2]], [0, 2])]
+    for p, (lname, elems, singular_at) in [(p, lay) for p in (2, 3) for lay in layouts]:
+        label = 'p=%d, z = %s' % (p, lname)
         try:
             I, models = setup()
             cref = I.get_global('multicomplex', 'Bicomplex')
-            Z = cref(Arr((3,), [e[0] for e in elems]), Arr((3,), [e[1] for e in elems]))
+            Z = cref(Arr((len(elems),), [e[0] for e in elems]), Arr((len(elems),), [e[1] for e in elems]))
             arr = I.binop(ast.Pow(), Z, p)
             a1, a2 = I.getattr(arr, 'z1').items(), I.getattr(arr, 'z2').items()
             problems = []
@@ -589,12 +593,14 @@ def elementwise(ctx, mc, rule='R-ELEMENTWISE'):
                 s1, s2 = comps(sc)
                 if not (same(a1[k], s1) and same(a2[k], s2)):
                     problems.append('element %d: array call gives %s, the scalar call %s' % (k, repr(a1[k])[:70], repr(s1)[:70]))
-            # exact value of the singular element
-            w1, w2 = elems[1]
-            for _ in range(p - 1):
-                w1, w2 = w1 * elems[1][0] - w2 * elems[1][1], w1 * elems[1][1] + w2 * elems[1][0]
-            if not (same(a1[1], w1) and same(a2[1], w2)):
-                problems.append('singular element: (%s, %s), exact z**%d is (%r, %r)' % (repr(a1[1])[:60], repr(a2[1])[:60], p, w1, w2))
+            # exact value of the singular elements
+            for k in singular_at:
+                w1, w2 = elems[k]
+                for _ in range(p - 1):
+                    w1, w2 = w1 * elems[k][0] - w2 * elems[k][1], w1 * elems[k][1] + w2 * elems[k][0]
+                if not (same(a1[k], w1) and same(a2[k], w2)):
+                    problems.append('singular element %d: (%s, %s), exact z**%d is (%r, %r)'
+                                    % (k, repr(a1[k])[:60], repr(a2[k])[:60], p, w1, w2))
             rep.check(not problems, rule, 'multicomplex.Bicomplex.__pow__', where, {'problems': problems[:3]},
                       'same expression as the scalar call for every element; exact power for the singular one', label, key='elementwise pow')
         except InterpRaise as exc:
@@ -635,7 +641,9 @@ def state(ctx, mc):
                 write(I, z, cref(v1, v2))
                 got = call(I, z)
                 z1n, z2n = I.getattr(z, 'z1'), I.getattr(z, 'z2')
-                if not (same(z1n[1], v1) and same(z2n[1], v2)):
+                if not (same(z1n[1], v1) and same(z2n[1], v2)) and write is not write_slice:
+                    # (a slice that is a copy, not a view, is no concern of the property: the object is then simply
+                    # unchanged, and the comparison with a fresh object below is still the right question)
                     rep.undecided('R-STATE', 'multicomplex.Bicomplex.__setitem__', {'write_not_seen': repr(z1n)[:100]}, label)
                     continue
                 fresh = call(I, cref(z1n.copy(), z2n.copy()))
@@ -1085,6 +1093,32 @@ def formal_level(ctx, mc):
 
 def aliases(ctx, mc):
     rep = ctx.rep
+    # components of different shapes are broadcast against each other (numpy rules), whichever of them is the smaller one
+    for name, s1, s2 in (('z2 of shape (2, 1) against z1 of shape (2, 2)', (2, 2), (2, 1)), ('z2 scalar against z1 of shape (3,)', (3,), ()),
+                         ('z1 of shape (1, 2) against z2 of shape (2, 2)', (1, 2), (2, 2))):
+        try:
+            I, models = make_interp(ctx.repo, lambda n, x: NotImplemented)
+
+            def grid(shape, tag):
+                n_ = 1
+                for d_ in shape:
+                    n_ *= d_
+                return Arr(shape, [Poly.sym('%s%d' % (tag, k)) for k in range(n_)]) if shape else Poly.sym(tag + '0')
+            A, B = grid(s1, 'p'), grid(s2, 'q')
+            Z = bic(I, A, B)
+            z1, z2 = I.getattr(Z, 'z1'), I.getattr(Z, 'z2')
+            shp = ndarr.broadcast_shapes(ndarr.asarr(A).shape, ndarr.asarr(B).shape)
+            want1, want2 = ndarr.broadcast_to(ndarr.asarr(A), shp), ndarr.broadcast_to(ndarr.asarr(B), shp)
+            ok = isinstance(z1, Arr) and isinstance(z2, Arr) and z1.shape == want1.shape == z2.shape and \
+                all(same(a, b) for a, b in zip(z1.items(), want1.items())) and all(same(a, b) for a, b in zip(z2.items(), want2.items()))
+            fact = {'z1': repr(z1)[:100], 'z2': repr(z2)[:100]}
+        except InterpRaise as exc:
+            ok, fact = False, {'raises': exc.exc_name, 'message': exc.msg[:100]}
+        except (AnalysisError, AlgebraError, TypeError, AttributeError) as exc:
+            rep.undecided('R-ALIASES', 'multicomplex.Bicomplex.__init__', {'cannot_evaluate': str(exc)[:160]}, name)
+            continue
+        rep.check(ok, 'R-ALIASES', 'multicomplex.Bicomplex.__init__', where_of(mc, '__init__'), fact,
+                  'both components broadcast to the common shape, element (i, j) next to element (i, j)', name, key='constructor broadcast')
     I, models = make_interp(ctx.repo, lambda n, x: NotImplemented)
     a, b, c, d = (Poly.sym(s) for s in 'abcd')
     Z = bic(I, a + I_ * b, c + I_ * d)
